@@ -154,16 +154,23 @@ fn gen_plan(seed: u64) -> VecPlan {
             tuples.push(vec![TUPLES1[i].to_string()]);
         }
     }
-    let nthreads = if r.chance(15) { 1 } else { 2 + r.below(2) as usize };
+    // a third of the runs are tiny (two threads, one or two operations each, two tuples): most
+    // races need only two or three operations, and a small plan meets the right schedule far more often
+    let tiny = r.chance(33);
+    if tiny {
+        tuples.truncate(2);
+    }
+    let nthreads = if tiny { 2 } else if r.chance(15) { 1 } else { 2 + r.below(2) as usize };
     let mut bit = 8u8;
     let mut threads = vec![];
     let mut nops = 0u64;
     for _ in 0..nthreads {
-        let n = 2 + r.below(if nthreads == 1 { 7 } else { 4 }) as usize;
+        let n = if tiny { 1 + r.below(2) as usize } else { 2 + r.below(if nthreads == 1 { 7 } else { 4 }) as usize };
         let mut ops: Vec<VOp> = vec![];
         for i in 0..n {
             let gets: Vec<usize> = ops.iter().enumerate().filter(|(_, o)| matches!(o, VOp::GetInc { .. })).map(|(j, _)| j).collect();
-            let op = match r.below(100) {
+            let roll = if tiny { *r.pick(&[10u64, 10, 70, 70, 79, 90]) } else { r.below(100) };
+            let op = match roll {
                 0..=49 => {
                     bit += 1;
                     VOp::GetInc { tuple: r.below(tuples.len() as u64) as usize, map: r.chance(35), bit: bit - 1 }
@@ -205,6 +212,8 @@ enum MOp {
     Reset,
     /// observed (tuple, child cell) set
     Collect(Vec<(usize, u32)>),
+    /// observed tuple set only (the collection read its cells in a way that cannot be attributed)
+    CollectTuples(Vec<usize>),
 }
 #[derive(Clone, PartialEq, Eq, Hash, Debug)]
 struct MState {
@@ -241,6 +250,14 @@ impl Spec for VecSpec {
             MOp::Reset => n.attached.clear(),
             MOp::Collect(v) => {
                 let want: Vec<(usize, u32)> = s.attached.iter().map(|(a, b)| (*a, *b)).collect();
+                let mut got = v.clone();
+                got.sort();
+                if got != want {
+                    return None;
+                }
+            }
+            MOp::CollectTuples(v) => {
+                let want: Vec<usize> = s.attached.keys().copied().collect();
                 let mut got = v.clone();
                 got.sort();
                 if got != want {
@@ -297,6 +314,18 @@ fn execute(plan: &VecPlan, mode: Mode) -> RunOut {
             }
         });
     }
+    // one more collection after all threads have finished (read under the scheduler): whatever state a
+    // race left behind must still be explained by the map model
+    let fin: Arc<Mutex<Option<VRes>>> = Arc::new(Mutex::new(None));
+    {
+        let vec = vec.clone();
+        let fin = fin.clone();
+        spawn_final(&sim, move |_| {
+            let mfs = vec.collect();
+            let f = compat::family_of(&mfs[0]);
+            *fin.lock().unwrap() = Some(VRes::Collected(f.metrics.iter().map(|m| (m.labels.clone(), m.counter.or(m.gauge).unwrap_or(f64::NAN))).collect()));
+        });
+    }
     let res = sim.run();
     let mut out = base_out(&plan.env, &res);
     for (t, p) in &res.panics {
@@ -310,7 +339,10 @@ fn execute(plan: &VecPlan, mode: Mode) -> RunOut {
         return out;
     }
     let iv = intervals(&res.log);
-    let results = results.lock().unwrap();
+    let mut results = results.lock().unwrap().clone();
+    if let Some(f) = fin.lock().unwrap().clone() {
+        results.push((FINAL_OP, Ok(f)));
+    }
     let handles = handles.lock().unwrap();
     // ---- observed identity: cell of every inc (by its unique bit), loads inside collects
     let mut cell_of_bit: BTreeMap<u8, u32> = BTreeMap::new();
@@ -354,11 +386,12 @@ fn execute(plan: &VecPlan, mode: Mode) -> RunOut {
     let mut born: BTreeMap<u32, (usize, usize)> = BTreeMap::new();
     let mut ident_unavailable = 0u64;
     let mut identity_lost = false;
+    let final_collect = VOp::Collect;
     for (id, r) in results.iter() {
         let t = op_thread(*id);
         let i = *id as usize % 1000;
         let (inv, ret) = iv[id];
-        let op = &plan.threads[t][i];
+        let op = if *id == FINAL_OP { &final_collect } else { &plan.threads[t][i] };
         let r = match r {
             Ok(r) => r,
             Err(p) => {
@@ -401,6 +434,7 @@ fn execute(plan: &VecPlan, mode: Mode) -> RunOut {
                     ident_unavailable += 1;
                 }
                 let mut set = vec![];
+                let mut tuple_set = vec![];
                 let mut seen_tuples = BTreeSet::new();
                 let mut vals = vec![];
                 for (k, (labels, v)) in samples.iter().enumerate() {
@@ -409,6 +443,7 @@ fn execute(plan: &VecPlan, mode: Mode) -> RunOut {
                             if !seen_tuples.insert(ti) {
                                 out.violations.push(Violation::new("C10/map", "C10/duplicate", format!("collect op {} shows label values {:?} twice", id, plan.tuples[ti])));
                             }
+                            tuple_set.push(ti);
                             if ident {
                                 set.push((ti, loads[k]));
                             }
@@ -420,6 +455,7 @@ fn execute(plan: &VecPlan, mode: Mode) -> RunOut {
                     }
                 }
                 if !ident {
+                    h.push(HOp { inv, ret, op: MOp::CollectTuples(tuple_set) });
                     continue;
                 }
                 h.push(HOp { inv, ret, op: MOp::Collect(set) });
